@@ -126,7 +126,9 @@ class SigmaFilter(SigmaRuleBase):
         """
         Converts from a dictionary object to a SigmaFilter object.
         """
+        sigma_filter, document_errors = cls.document_as_map(sigma_filter, collect_errors, source)
         kwargs, errors = super().from_dict_common_params(sigma_filter, collect_errors, source)
+        errors[0:0] = document_errors
 
         # placeholders used when parts can't be parsed and errors are collected
         filter_logsource: SigmaLogSource = EmptyLogSource()
